@@ -15,6 +15,10 @@ class QuaHoldList(HoldList[QuaHold], QuaNoteList[QuaHold]):
     @staticmethod
     def from_yaml(dicts: List[Dict[str]]) -> QuaHoldList:
         df = pd.DataFrame(dicts)
+        # The format omits StartTime when it is 0 and KeySounds when it is empty
+        if "StartTime" not in df:
+            df["StartTime"] = 0
+        df["StartTime"] = df["StartTime"].fillna(0)
         df["EndTime"] -= df["StartTime"]
         df = df.rename(
             dict(
@@ -33,6 +37,7 @@ class QuaHoldList(HoldList[QuaHold], QuaNoteList[QuaHold]):
         df.offset = df.offset.fillna(0)
         df.column = df.column.fillna(0)
         df.length = df.length.fillna(0)
+        df.keysounds = [k if isinstance(k, list) else [] for k in df.keysounds]
         return QuaHoldList(df)
 
     def to_yaml(self):
